@@ -7,23 +7,32 @@ ROOTS = ['vf_world_init', 'vf_session_init', 'vf_header_init', 'vf_message_init'
          'vf_sess_state', 'vf_sess_is_shutdown_flag', 'vf_sess_clear_control', 'vf_sess_set_flags', 'vf_sess_set_sid', 'vf_sess_set_sci', 'vf_sess_sid_sender', 'vf_sess_sid_target',
          'vf_sess_set_times', 'vf_sess_last_sent', 'vf_sess_last_received', 'vf_conn_set', 'vf_conn_hb']
 PROVIDED = ['vf_gen', 'vf_rec_send', 'vf_deliver', 'vf_is_admin', 'vf_authenticate']
-STUBS = ['Message::factory := abstract message (models/sess_msg.c): yields the harness message, raises a decoding failure (InvalidMessage / InvalidVersion[force_logoff] / MissingMandatoryField / BadCheckSum / std::exception) or returns null',
+STUBS = ['fast_atoi<unsigned> on the inbound bytes := MsgSeqNum attribute of the abstract message (any unsigned 32-bit value); real parser: C19_scan and C08',
+         'Message::factory := abstract message (models/sess_msg.c): yields the harness message, raises a decoding failure (InvalidMessage / InvalidVersion[force_logoff] / MissingMandatoryField / BadCheckSum / std::exception) or returns null',
          'MessageBase::get<T>/have := symbolic header/body attributes of the abstract message (43,52,122,36,7,16,112,108,141,49,56)',
          'VSession::send / generate_* (shim overrides) := record (kind, arguments, custom seqnum, no_increment); message construction and transmission are outside',
          'f8Exception::format<..>, ostringstream := no text produced (what() == "")', 'GlobalLogger/SingleLogger::is_loggable := false; session loggers absent (null)',
          'std::chrono::system_clock::now := arbitrary non-decreasing instants', 'pthread_spin_* := uncontended; clock_nanosleep := returns at once; Connection::stop := recorded',
          'std::string out-of-line members, operator new, exceptions (typeinfo ancestry): models/cxx.c']
 # loops of the models and of the real code that every harness of this world can reach (bounds: typeinfo table rows, catch clauses, literal/string lengths, digits)
-US = ['vf_copy.0:42', 'vf_ti_match.0:140', '__vf_landing.0:6', 'x_strlen.0:64', 'x_memcmp.0:4', '_ZL4slenPKc.0:4', '_ZN4FIX89fast_atoiIjEET_PKcc.0:12', 'digits_value.0:11', 'raw_seq.0:11', 'digits_of.0:11',
-      'x__ZNKSt7__cxx1112basic_stringIcSt11char_traitsIcESaIcEE4findEPKcmm.0:13', 'x__ZNKSt7__cxx1112basic_stringIcSt11char_traitsIcESaIcEE4findEPKcmm.1:5']
+US = ['vf_copy.0:42', 'vf_ti_match.0:140', '__vf_landing.0:6', 'x_strlen.0:64', 'x_memcmp.0:4', '_ZL4slenPKc.0:4', '_ZN4FIX89fast_atoiIjEET_PKcc.0:12',
+      'x__ZNKSt7__cxx1112basic_stringIcSt11char_traitsIcESaIcEE4findEPKcmm.0:20', 'x__ZNKSt7__cxx1112basic_stringIcSt11char_traitsIcESaIcEE4findEPKcmm.1:20']
 ASSUME = ['operator new never fails', 'the session has no persister, no loggers and no SessionConfig (_persist, _logger, _plogger, _sf null) unless a harness says otherwise',
           'Session/Connection objects are not constructed (constructors start threads): typed static storage with exactly the members read by the code under test set through compiled setters',
           'print/printnohb console paths are off (_control bits clear)']
 
-def build(ctx, name='sess_in.c', roots=None):
+def kf_defs(pid):
+    """committed known findings of a property + their harness defines (VF_KF_EXTRA: extra defines for trying a proposed entry before it is committed)"""
+    import os as _os
+    kf = known_findings(pid)
+    return kf, kf_defines(kf) + _os.environ.get('VF_KF_EXTRA', '').split()
+
+def build(ctx, name='sess_in.c', roots=None, real_atoi=False, light=False):
     # sess_in.cpp #includes runtime/session.cpp and shims/sess_common.cpp: the latter's content enters the cache key through a define
     ll = ctx.build_ir('sess_in.cpp', 'cut', extra=['-DVF_DEP_HASH=0x' + file_hash(VERIF + '/shims/sess_common.cpp')])
-    info = ctx.translate(ll, roots or ROOTS, name, stubfiles=['common.stubs', 'sess.stubs'], models=['cxx.c', 'stubs.c', 'sess_env.c', 'sess_msg.c'], provided=PROVIDED + ['vf_gen_token'], opts=['--rpo', '--vdispatch'])
+    # abstract-message harnesses: MsgSeqNum is an attribute of the abstract message (cut point fast_atoi<unsigned> := m_seq; the parser itself is C08's
+    # subject and runs for real in the raw-bytes harness C19_scan, built with real_atoi=True); a decimal parser/printer round trip is a hard SAT problem
+    info = ctx.translate(ll, roots or ROOTS, name, stubs=({} if real_atoi else {'_ZN4FIX89fast_atoiIjEET_PKcc': 'st_atoi_seq'}), stubfiles=['common.stubs'] + ([] if light else ['sess.stubs']), models=['cxx.c', 'stubs.c'] + ([] if light else ['sess_env.c', 'sess_msg.c']), provided=PROVIDED + ['vf_gen_token'], opts=['--rpo', '--vdispatch'])
     # guard of the exception model (st_exc_throw): f8Exception::what is the only what() of the fix8 exception hierarchy in this translation
     whats = set(re.findall(r'_ZNK4FIX8\w*?4whatEv', open(info['c']).read()))
     if whats - {'_ZNK4FIX811f8Exception4whatEv'}: raise Broken('an exception class overrides what(): %s (exception model of models/sess_env.c no longer valid)' % sorted(whats))
